@@ -151,13 +151,154 @@ func stallScenario(emit func(sx), id int, cs uint64) {
 	emit(L("end"))
 }
 
+// within runs f in a goroutine and tells whether it returned within d.
+func within(d time.Duration, f func()) bool {
+	done := make(chan struct{})
+	go func() { f(); close(done) }()
+	select {
+	case <-done:
+		return true
+	case <-time.After(d):
+		return false
+	}
+}
+
+// retryScenario: one failed lower-level update with small dirty limits.  Persistence must resume
+// (the failed stack is offered again) and writers held back by the limits must get through.
+func retryScenario(emit func(sx), id int, cs uint64) {
+	cfg := Config{LL: "map", MMPn: 8, MMPd: 10, MaxPre: 1, MaxDirtyOps: 1, MaxDirtyBytes: 1}
+	h := newH(cfg, "")
+	emit(L("case", id, int64(cs), cfg.sx(), L("universe", L())))
+	if err := h.open(); err != nil {
+		emit(L("error", fmt.Sprintf("%q", err.Error())))
+		emit(L("end"))
+		return
+	}
+	atomic.StoreInt32(&h.gating, 0)
+	h.releaseAll()
+	atomic.StoreInt32(&h.failNext, 1)
+	ok := within(40*time.Second, func() {
+		for j := 0; j < 6; j++ {
+			h.execBatch(&tbatch{ops: []bop{{'s', []byte(fmt.Sprintf("k%d", j)), []byte("v")}}})
+		}
+		waitPersisted(h.coll)
+	})
+	if ok {
+		emit(L("stall", "ok"))
+	} else {
+		emit(L("stall", fmt.Sprintf("%q", "after one failed LowerLevelUpdate the writers or the persister never got through")))
+		emit(L("end"))
+		return
+	}
+	if !within(40*time.Second, func() { h.closeAll() }) {
+		emit(L("stall", "close-hung"))
+	}
+	emit(L("end"))
+}
+
+// afterCloseScenario: every call after Close reports ErrClosed - also Snapshot() when a snapshot
+// was cached before the Close, on ordinary and on ReadOnly collections.
+func afterCloseScenario(emit func(sx), id int, cs uint64) {
+	emit(L("case", id, int64(cs), Config{LL: "none", MaxPre: 1}.sx(), L("universe", L())))
+	res := []sx{"afterclose"}
+	for _, ro := range []bool{false, true} {
+		c, err := moss.NewCollection(moss.CollectionOptions{ReadOnly: ro})
+		if err != nil {
+			continue
+		}
+		c.Start()
+		if !ro {
+			b, _ := c.NewBatch(0, 0)
+			b.Set([]byte("a"), []byte("1"))
+			c.ExecuteBatch(b, moss.WriteOptions{})
+			b.Close()
+		}
+		if ss, err := c.Snapshot(); err == nil && ss != nil { // fills the cache
+			ss.Close()
+		}
+		if ss, err := c.Snapshot(); err == nil && ss != nil { // served from the cache
+			ss.Close()
+		}
+		c.Close()
+		ss, err := c.Snapshot()
+		if ss != nil {
+			ss.Close()
+		}
+		res = append(res, errSx(err))
+		_, err = c.Get([]byte("a"), moss.ReadOptions{})
+		res = append(res, errSx(err))
+		_, err = c.NewBatch(0, 0)
+		res = append(res, errSx(err))
+	}
+	emit(res)
+	emit(L("end"))
+}
+
+// sortingWriterScenario: with DeferredSort a writer held back by a full top sorts its (large,
+// scrambled) batch while it waits; the merger makes room - or Close arrives - in the middle of
+// that sort.  The writer must still get through (or get ErrClosed).
+func sortingWriterScenario(emit func(sx), id int, cs uint64, r *rng) {
+	cfg := Config{LL: "none", MMPn: 8, MMPd: 10, MaxPre: 1, DeferredSort: true}
+	h := newH(cfg, "")
+	emit(L("case", id, int64(cs), cfg.sx(), L("universe", L())))
+	if err := h.open(); err != nil {
+		emit(L("error", fmt.Sprintf("%q", err.Error())))
+		emit(L("end"))
+		return
+	}
+	h.execBatch(&tbatch{ops: []bop{{'s', []byte("first"), []byte("v")}}})
+	if err := h.waitPark("merger", "merger:ingest"); err != nil { // top stays full while the merger is parked
+		emit(L("error", fmt.Sprintf("%q", err.Error())))
+		emit(L("end"))
+		go h.closeAll()
+		return
+	}
+	big, _ := h.coll.NewBatch(0, 0)
+	nkeys := 150000 + r.intn(150000)
+	for j := 0; j < nkeys; j++ {
+		big.Set([]byte(fmt.Sprintf("%08x-%d", r.next()&0xffffffff, j)), []byte("v"))
+	}
+	closing := r.chance(1, 2)
+	returned := make(chan error, 1)
+	go func() { returned <- h.coll.ExecuteBatch(big, moss.WriteOptions{}) }()
+	time.Sleep(time.Duration(20+r.intn(60)) * time.Millisecond) // the writer is sorting by now
+	if closing {
+		go h.closeAll()
+	} else {
+		atomic.StoreInt32(&h.gating, 0)
+		h.releaseAll()
+	}
+	select {
+	case <-returned:
+		emit(L("stall", "ok"))
+	case <-time.After(40 * time.Second):
+		emit(L("stall", fmt.Sprintf("%q", fmt.Sprintf("a DeferredSort writer sorting while held back never returned (closing=%v)", closing))))
+		emit(L("end"))
+		return
+	}
+	if !closing && !within(40*time.Second, func() { h.closeAll() }) {
+		emit(L("stall", "close-hung"))
+	}
+	emit(L("end"))
+}
+
 func famSync(w *bufio.Writer, seed uint64, n int) error {
 	emit := func(v sx) { w.WriteString(sxString(v)); w.WriteByte('\n') }
 	for i := 0; i < n; i++ {
 		cs := seed*1000003 + uint64(i)
 		r := newRng(cs ^ 0x8f)
-		if i%10 == 9 {
+		switch i % 10 {
+		case 9:
 			stallScenario(emit, i, cs)
+			continue
+		case 8:
+			retryScenario(emit, i, cs)
+			continue
+		case 7:
+			afterCloseScenario(emit, i, cs)
+			continue
+		case 6:
+			sortingWriterScenario(emit, i, cs, r)
 			continue
 		}
 		capN := 1 + r.intn(3)
